@@ -27,6 +27,9 @@ ToSet(q) == {q[k] : k \in 1..Len(q)}
 PairSet(q) == {<<q[k][1], q[k][2]>> : k \in 1..Len(q)}
 SetSet(q) == {{q[k][1], q[k][2]} : k \in 1..Len(q)}
 
+SnapContent(r) == [size |-> r.size, last |-> r.last, prev |-> r.prev, hist |-> r.hist, cluster |-> ToSet(r.cluster), ver |-> r.ver,
+                   ahead |-> r.ahead]
+
 (* projection record (JSON) -> node record of Core: exactly Core's fields *)
 NormNode(p) ==
   IF ~p.alive THEN (IF "disk" \in DOMAIN p
@@ -41,7 +44,8 @@ NormNode(p) ==
         rcnt |-> p.rcnt, noopIdx |-> p.noopIdx, chgIdx |-> p.chgIdx, hist |-> p.hist, ver |-> p.ver,
         ready |-> p.ready, force |-> p.force, lse |-> p.lse, needLoad |-> p.needLoad, serPid |-> p.serPid,
         serId |-> p.serId, snap |-> p.snap, trans |-> p.trans, incoming |-> p.incoming,
-        rocnt |-> p.rocnt, roid |-> p.roid, metaCommit |-> p.metaCommit, names |-> p.names, codeVer |-> p.codeVer]
+        rocnt |-> p.rocnt, roid |-> p.roid, metaCommit |-> p.metaCommit, names |-> p.names, codeVer |-> p.codeVer,
+        child |-> IF p.child.st = "run" THEN [st |-> "run", content |-> SnapContent(p.child.content)] ELSE [st |-> p.child.st]]
 
 Steps(t) == Traces[t].steps
 Full(t) == Steps(t)[1].full
@@ -75,8 +79,6 @@ ActAlive(e) == IF Has(e, "net") THEN SetSet(e.net.alive) ELSE alive
 ActUp(e) == IF Has(e, "net") THEN PairSet(e.net.up) ELSE up
 ActCbs(e) == IF Has(e, "cbs") THEN [k \in DOMAIN cbs \cup DOMAIN e.cbs |-> IF k \in DOMAIN e.cbs THEN e.cbs[k] ELSE cbs[k]] ELSE cbs
 ActNexc(e) == IF Has(e, "nexc") THEN e.nexc ELSE nexc
-SnapContent(r) == [size |-> r.size, last |-> r.last, prev |-> r.prev, hist |-> r.hist, cluster |-> ToSet(r.cluster), ver |-> r.ver,
-                   ahead |-> r.ahead]
 ActSnaps(e) == IF Has(e, "newsnaps")
                THEN AddSnaps(snaps, [k \in 1..Len(e.newsnaps) |-> [sid |-> e.newsnaps[k].sid, content |-> SnapContent(e.newsnaps[k])]])
                ELSE snaps
@@ -145,6 +147,8 @@ Relational(e) ==
     [] a[1] = "Compact" -> Compact(a[2])
     [] a[1] = "Start" -> StartFresh(a[2], ToSet(a[3]))
     [] a[1] = "Stop" -> Stop(a[2])
+    [] a[1] = "ChildDone" -> ChildDone(a[2], Orc(e))
+    [] a[1] = "ChildKill" -> ChildKilled(a[2])
     [] a[1] = "Crash" -> Crash(a[2])
     [] a[1] = "Restart" -> Restart(a[2])
     [] OTHER -> TRUE
